@@ -42,7 +42,7 @@ def generate(run_seed: int, tier: str) -> Plan:
         })
     pool: list[dict[str, Any]] = []
     rg = recipes.gen_rg(rng, max_vars=3)
-    kinds = rng.choice([["categorical"], ["embedding"], ["gaussian"], ["polynomial"]])
+    kinds = rng.choice([["categorical"], ["embedding"], ["gaussian"], ["polynomial"], ["binomial"]])
     for _ in range(rng.randint(1, 3)):
         r = recipes.gen_rg_circuit(rng, monotonic=True, rg=rg, kinds=kinds, allow_classes=False)
         pool.append(r)
@@ -126,6 +126,23 @@ def _make_marker(i: int) -> tuple[type, Any]:
 
     integrate_marker.__annotations__ = {"sl": cls, "scope": Scope, "return": CircuitBlock}
     return cls, integrate_marker
+
+
+def _binomial_rule() -> Any:
+    """An integration rule for BinomialLayer (the default registry has none): a user-defined rule
+    every context of this world carries in its *own* registry.  It is a correct rule (a Binomial
+    is normalised), so results can still be compared by value."""
+    from cirkit.symbolic.circuit import CircuitBlock
+    from cirkit.symbolic.layers import BinomialLayer, ConstantValueLayer
+    from cirkit.symbolic.parameters import ConstantParameter, Parameter
+    from cirkit.utils.scope import Scope
+
+    def integrate_binomial(sl: Any, *, scope: Any) -> Any:
+        lp = Parameter.from_input(ConstantParameter(sl.num_output_units, value=0.0))
+        return CircuitBlock.from_layer(ConstantValueLayer(sl.num_output_units, log_space=True, value=lp))
+
+    integrate_binomial.__annotations__ = {"sl": BinomialLayer, "scope": Scope, "return": CircuitBlock}
+    return integrate_binomial
 
 
 def _marker_circuit(cls: type) -> Any:
@@ -232,6 +249,7 @@ class WorldB:
         for i, c in enumerate(self.ctxs):
             cls, rule = _make_marker(i)
             c.add_operator_rule(LayerOperator.INTEGRATION, rule)
+            c.add_operator_rule(LayerOperator.INTEGRATION, _binomial_rule())
             self.markers.append(_marker_circuit(cls))
         from cirkit.symbolic.registry import OperatorRegistry
 
@@ -762,6 +780,51 @@ class WorldB:
             self.pool.append((f"s{len(self.pool)}", res, self.meta(res)))
         return "ok"
 
+    def _judge_refusal(self, op: dict[str, Any], opr: str, ci: int, args: list[Any],
+                       kwargs: dict[str, Any], exc: BaseException) -> None:
+        """An operator function refused compiled circuits of its own context.  Differential: "the
+        operator functions applied to compiled circuits return the compilation of the
+        corresponding symbolic operator result" - so if the symbolic operator, applied under that
+        context's registry, succeeds and its result compiles there, the refusal is a violation
+        (O5); if that route fails as well, the refusal is a function of the arguments."""
+        import cirkit.symbolic.functional as SF
+
+        if ci in self.stack and self.stack[-1] != ci:
+            return  # the context's registry can only be made active by re-entering it
+        ctx = self.ctxs[ci]
+
+        def direct() -> Any:
+            if opr == "integrate":
+                return SF.integrate(args[0][1], scope=kwargs["scope"])
+            if opr == "multiply":
+                return SF.multiply(args[0][1], args[1][1])
+            if opr == "conjugate":
+                return SF.conjugate(args[0][1])
+            if opr == "differentiate":
+                return SF.differentiate(args[0][1], order=op["order"])
+            return SF.concatenate([args[0][1], args[1][1]])
+
+        try:
+            if self.stack and self.stack[-1] == ci:
+                dsc = direct()
+            else:
+                with ctx:
+                    dsc = direct()
+            seed_rng(op["seed"] + 2)
+            ctx.compile(dsc)
+        except Exception:
+            self._commit_pending(ci, None, failed=True)
+            self.tr.count("refusal:confirmed-by-symbolic-route")
+            return
+        self._commit_pending(ci, dsc, failed=False)
+        self.meta(dsc)
+        raise Violation(
+            "O5",
+            f"{opr} through context {ci} refused its own compiled circuit ({type(exc).__name__}: "
+            f"{str(exc)[:100]}) although the symbolic operator under that context's registry "
+            f"succeeds and its result compiles there (stack {self.stack})",
+        )
+
     def op_operator(self, op: dict[str, Any]) -> str:
         """Operator functions on compiled circuits (module-level or through a context)."""
         import cirkit.pipeline as P
@@ -815,6 +878,7 @@ class WorldB:
                 self.tr.count("refusal:foreign")
                 return "refused:foreign"
             self.tr.count("refusal:ValueError")
+            self._judge_refusal(op, opr, ci, args, kwargs, e)
             return "refused:ValueError"
         except Exception as e:
             self._commit_pending(ci, None, failed=True)
@@ -826,6 +890,7 @@ class WorldB:
                 self.tr.count(f"refusal:foreign:{type(e).__name__}")
                 return "refused:foreign"
             self.tr.count(f"refusal:{type(e).__name__}")
+            self._judge_refusal(op, opr, ci, args, kwargs, e)
             return f"refused:{type(e).__name__}"
         if foreign:
             raise Violation("O1", f"{opr} accepted a compiled circuit that is not known in the pipeline context it was applied in")
@@ -859,15 +924,16 @@ class WorldB:
                 return SF.differentiate(args[0][1], order=op["order"])
             return SF.concatenate([args[0][1], args[1][1]])
 
-        if ci in self.stack and ci != self.top():
+        if ci in self.stack and self.stack[-1] != ci:
             # the context's own registry can only be made active by entering it, and entering
-            # an active context object is the re-entrancy the property excludes
+            # an active context object is the re-entrancy the property excludes (a bare registry
+            # block opened inside the context's block hides its registry in the same way)
             self.tr.count("operator:value-check-skipped")
             if self.had_disruption:
                 self.compile_after_disruption = True
             return "ok"
         try:
-            if ci == self.top():
+            if self.stack and self.stack[-1] == ci:
                 dsc = direct()
             else:
                 with ctx:
